@@ -2,6 +2,9 @@
 
 Engine E: BFS over operation histories on real FSA objects against the set model
 (mc/oracle/fsa_model.py); engine P: kbmag record texts -> parse_record/_from_gap_record.
+The histories include additions that re-use a label of the tail for another head (either edge may win, in all
+three views alike), empty label lists (no edge, no neighbour) and, in the rich alphabet, ignore_redundant=False
+with new labels; section start-vertex-lists: every automaton owns its list of start vertices.
 """
 import copy
 import itertools
@@ -50,6 +53,12 @@ def _out_dict_for(model, hide_targets):
     return od
 
 
+def _with_empty_lists(od):
+    """the target->labels dictionary with an EMPTY label list for every ordered pair of (key) vertices that has no edge:
+    no labels, no edges - the same automaton"""
+    return {u: dict([(w, []) for w in od if w not in nb] + list(nb.items())) for u, nb in od.items()}
+
+
 def build_root(root):
     from geometry_tools.automata import fsa
     _, route, arg, U = root
@@ -63,10 +72,12 @@ def build_root(root):
         if route == "deepcopy":
             f = copy.deepcopy(f)
         return f, model, U
-    if route in ("out", "out_hidden"):
+    if route in ("out", "out_hidden", "out_empty_lists"):
         edges = [tuple(e) for e in arg]
         model = M.from_label_dict(_label_dict_for(edges, False))
         od = _out_dict_for(model, route == "out_hidden")
+        if route == "out_empty_lists":
+            od = _with_empty_lists(od)
         f = fsa.FSA(od, start_vertices=[0], graph_dict=False)
         return f, model, U
     if route in ("free", "free_iter", "free_tuple", "free_keys"):
@@ -109,6 +120,16 @@ def enabled_ops(model, U, rich):
                     if all(model.target(u, l) in (None, v) for l in ls):
                         ops.append(["add_edges_elist", [[u, v, list(ls)]]])
     if rich:
+        # the vertices handed over as a one-shot iterable (the method only says 'vertices': any iterable, walked once)
+        for vs in [[v] for v in V] + [[V[0], V[1]], [V[2], V[0]]]:
+            ops.append(["add_vertices", vs, "iterator"])
+        # ignore_redundant=False with labels that are all NEW between u and v (nothing is redundant: same result as the default)
+        for u in V:
+            for v in V:
+                for k in (1, 2, 3):
+                    for ls in itertools.combinations(L, k):
+                        if all(model.target(u, l) is None for l in ls):
+                            ops.append(["add_edges_elist", [[u, v, list(ls)]], "keep-redundant"])
         # a label repeated inside one elist entry (one call must not list it twice)
         for u in V[:2]:
             for v in V[:2]:
@@ -123,6 +144,21 @@ def enabled_ops(model, U, rich):
                 m2 = m2.add_edges([(u, v, l)])
                 if m2.target(u2, l2) in (None, v2):
                     ops.append(["add_edges", [[u, v, l], [u2, v2, l2]]])
+    # an edge whose label already leaves the tail towards ANOTHER head (the automaton stays deterministic: see redirect())
+    for (u, w, l) in sorted(model.E, key=repr):
+        if u in V and l in L:
+            for v in V:
+                if v != w:
+                    ops.append(["redirect", [[u, v, l]], False])
+                    if rich:
+                        ops.append(["redirect", [[u, v, [l]]], True])
+                        for l2 in L:
+                            if l2 != l:
+                                ops.append(["redirect", [[u, v, [l, l2]]], True])
+                                ops.append(["redirect", [[u, v, [l2, l]]], True])
+    # no labels: no edges (the two vertices exist afterwards)
+    for (u, v) in ((V[0], V[0]), (V[0], V[1]), (V[1], V[0])):
+        ops.append(["add_edges_elist", [[u, v, []]]])
     mv = sorted(model.V, key=repr)
     for v in mv:
         ops.append(["delete_vertex", v])
@@ -145,18 +181,66 @@ def enabled_ops(model, U, rich):
     return ops
 
 
-def apply_op(f, model, op, retained):
+def redirect_outcomes(model, edges):
+    """Models a call add_edges(edges) may lead to when some (tail, label) already has ANOTHER head.  The module
+    documents 'at most one outgoing edge with a given label' and does not say which edge wins, so: the new edge replaces
+    the old one, or the old one is kept and the new one dropped (edge by edge, in call order) - in ALL views alike."""
+    rep, keep = model, model
+    for (u, v, l) in edges:
+        rep = M(rep.V | {u, v}, {e for e in rep.E if not (e[0] == u and e[2] == l)} | {(u, v, l)})
+        keep = keep.add_vertices([u, v])
+        if keep.target(u, l) is None:
+            keep = keep.add_edges([(u, v, l)])
+    return {"new-edge-replaces-old": rep, "old-edge-kept": keep}
+
+
+def apply_op(f, model, op, retained, viol=None):
     """Apply op to the real automaton and to the model; returns (f, model)."""
     name = op[0]
+    if name == "redirect":
+        elist = op[2]
+        if elist:
+            f.add_edges([(u, v, list(ls)) for (u, v, ls) in op[1]], elist=True)
+            flat = [(u, v, l) for (u, v, ls) in op[1] for l in ls]
+        else:
+            f.add_edges([tuple(e) for e in op[1]])
+            flat = [tuple(e) for e in op[1]]
+        cands = redirect_outcomes(model, flat)
+        (Vl, Vo, Vi), Es = views(f)
+        # the model follows the label view; the other two views must tell the same story (checked right here so that
+        # the finding is named after the input class)
+        chosen = None
+        for nm, cand in cands.items():
+            if set(Es[0]) == set(cand.E):
+                chosen = cand
+                break
+        if chosen is None:
+            chosen = cands["new-edge-replaces-old"]
+            if viol is not None:
+                viol.append({"key": "views/add-edge-with-used-label/label-view",
+                             "msg": "add_edges(%r%s) on %r: label view %r is neither %r" % (
+                                 op[1], ", elist=True" if elist else "", sorted(model.E, key=repr), sorted(set(Es[0]), key=repr),
+                                 " nor ".join("%s %r" % (k_, sorted(c.E, key=repr)) for k_, c in cands.items()))})
+        elif viol is not None:
+            for nm, E in (("outgoing", Es[1]), ("incoming", Es[2])):
+                if set(E) != set(chosen.E) or len(E) != len(set(E)):
+                    viol.append({"key": "views/add-edge-with-used-label/%s-view" % nm,
+                                 "msg": "add_edges(%r%s) on %r (the label is already used by an edge from the same tail to another head): "
+                                        "label view %r, %s view %r" % (op[1], ", elist=True" if elist else "", sorted(model.E, key=repr),
+                                                                       sorted(set(Es[0]), key=repr), nm, sorted(E, key=repr))})
+        return f, chosen
     if name == "add_vertices":
-        f.add_vertices(list(op[1]))
+        f.add_vertices(iter(list(op[1])) if len(op) > 2 and op[2] == "iterator" else list(op[1]))
         return f, model.add_vertices(op[1])
     if name == "add_edges":
         f.add_edges([tuple(e) for e in op[1]])
         return f, model.add_edges([tuple(e) for e in op[1]])
     if name == "add_edges_elist":
-        f.add_edges([(u, v, list(ls)) for (u, v, ls) in op[1]], elist=True)
-        return f, model.add_edges([(u, v, l) for (u, v, ls) in op[1] for l in ls])
+        if len(op) > 2 and op[2] == "keep-redundant":
+            f.add_edges([(u, v, list(ls)) for (u, v, ls) in op[1]], elist=True, ignore_redundant=False)
+        else:
+            f.add_edges([(u, v, list(ls)) for (u, v, ls) in op[1]], elist=True)
+        return f, model.add_vertices([x for (u, v, ls) in op[1] for x in (u, v)]).add_edges([(u, v, l) for (u, v, ls) in op[1] for l in ls])
     if name == "delete_vertex":
         f.delete_vertex(op[1])
         return f, model.delete_vertices([op[1]])
@@ -229,9 +313,14 @@ def check_views(f, model, who="automaton"):
     if plain != sorted(((u, v) for (u, v, l) in model.E), key=repr):
         out.append({"key": "views/api/edges-unlabelled", "msg": "%s: edges() gives %r" % (who, plain)})
     for v in sorted(model.V, key=repr):
-        no = {w for w in f.neighbors_out(v) if len(f.edge_labels(v, w)) > 0}
-        if no != {b for (a, b, l) in model.E if a == v}:
-            out.append({"key": "views/api/neighbors_out", "msg": "%s: neighbors_out(%r) = %r" % (who, v, sorted(no, key=repr))})
+        for nm, got, want in (("neighbors_out", list(f.neighbors_out(v)), {b for (a, b, l) in model.E if a == v}),
+                              ("neighbors_in", list(f.neighbors_in(v)) if v in f.in_dict else [], {a for (a, b, l) in model.E if b == v})):
+            if {w for w in got if w in want} != want or len(got) != len(set(got)):
+                out.append({"key": "views/api/" + nm, "msg": "%s: %s(%r) = %r, model %r" % (who, nm, v, got, sorted(want, key=repr))})
+            elif set(got) != want:
+                out.append({"key": "views/api/%s/neighbour-without-edge" % nm,
+                            "msg": "%s: %s(%r) = %r lists %r although there is no edge (model neighbours %r)"
+                                   % (who, nm, v, got, sorted(set(got) - want, key=repr), sorted(want, key=repr))})
     return out
 
 
@@ -250,13 +339,54 @@ def real_signature(f):
     return (tuple(sig), kinds)
 
 
+WHO_SLUG = {"receiver of recurrent(inplace=False)": "recurrent-copy", "receiver of rename_generators(inplace=False)": "rename-copy",
+            "original of deepcopy": "deepcopy", "second automaton built from the same dictionary": "same-source-dictionary"}
+
+
+def edit_start_list(f, edit):
+    """In-place edit of the public start_vertices list; returns (list object, saved content) for the undo."""
+    sv = f.start_vertices
+    saved = list(sv)
+    if edit == "append":
+        sv.append("r")
+    elif edit == "setitem":
+        if len(sv):
+            sv[0] = "r"
+        else:
+            sv.append("r")
+    elif edit == "clear-extend":
+        del sv[:]
+        sv.extend(["r", "q"])
+    else:
+        raise ValueError(edit)
+    return sv, saved
+
+
+def start_lists_independent(f, retained):
+    """The caller re-roots the automaton reached by the history in place; the automata left behind (receivers of
+    non-in-place operations, originals of copies, the twin built from the same dictionary) keep their start vertices."""
+    others = [(g, who) for (g, gm, who) in retained if g is not f]
+    before = [list(g.start_vertices) for (g, who) in others]
+    sv, saved = edit_start_list(f, "setitem")
+    try:
+        for (g, who), b in zip(others, before):
+            if list(g.start_vertices) != b:
+                return [{"key": "start-vertices/shared-list/" + WHO_SLUG.get(who, "other"),
+                         "msg": "re-rooting the reached automaton in place changed the start vertices of the %s: %r -> %r"
+                                % (who, b, list(g.start_vertices))}]
+    finally:
+        sv[:] = saved
+    return []
+
+
 def _source_dict(root):
     """(source dictionary handed to the constructor, graph_dict flag) for dictionary-built roots, else None."""
     _, route, arg, U = root
     if route in ("graph", "graph_hidden"):
         return _label_dict_for([tuple(e) for e in arg], route == "graph_hidden"), True
-    if route in ("out", "out_hidden"):
-        return _out_dict_for(M.from_label_dict(_label_dict_for([tuple(e) for e in arg], False)), route == "out_hidden"), False
+    if route in ("out", "out_hidden", "out_empty_lists"):
+        od = _out_dict_for(M.from_label_dict(_label_dict_for([tuple(e) for e in arg], False)), route == "out_hidden")
+        return (_with_empty_lists(od) if route == "out_empty_lists" else od), False
     return None
 
 
@@ -273,13 +403,18 @@ def run_history(hist, rich):
         f = _fsa.FSA(d, start_vertices=[0], graph_dict=flag)
         twin = _fsa.FSA(d, start_vertices=[0], graph_dict=flag)
         retained.append((twin, model, "second automaton built from the same dictionary"))
+    early = []
     for op in hist[1:]:
-        f, model = apply_op(f, model, op, retained)
-    v = check_views(f, model)
+        f, model = apply_op(f, model, op, retained, early)
+        if early:
+            break
+    v = early or check_views(f, model)
     for (g, gm, who) in retained:
         for x in check_views(g, gm, who):
             x["key"] = x["key"].replace("views/", "views-retained/")
             v.append(x)
+    if not v:
+        v += start_lists_independent(f, retained)
     if src is not None and not v and d != snapshot:
         v.append({"key": "views-retained/source-dictionary-modified", "msg": "the dictionary the automaton was built from was changed by the history: %r, was %r" % (d, snapshot)})
     key = repr((model.key(), real_signature(f) if not v else None))
@@ -304,17 +439,20 @@ def render_record(names, table, style, interval):
     alphabet names as quoted strings (GAP accepts both forms)."""
     quoted = style in (1, 2)
     k = len(table)
-    nl = {0: "\n", 1: "\n   ", 2: " ", 3: "\n\t"}[style]
-    sp = {0: " ", 1: "  ", 2: "", 3: " "}[style]
+    # styles 4, 5: the other white space characters of GAP (carriage return: files with CRLF line ends; form feed)
+    nl = {0: "\n", 1: "\n   ", 2: " ", 3: "\n\t", 4: "\r\n", 5: "\n\f"}[style]
+    sp = {0: " ", 1: "  ", 2: "", 3: " ", 4: " ", 5: "\f"}[style]
+    # interval == "spaced": ranges the way GAP itself prints them, [ 1 .. 2 ]
+    rng = "[ %d .. %d ]" if interval == "spaced" else "[%d..%d]"
     def row_text(row):
         # GAP prints consecutive ascending integer lists as ranges [a..b]
         if interval and len(row) >= 2 and all(row[i + 1] == row[i] + 1 for i in range(len(row) - 1)):
-            return "[%d..%d]" % (row[0], row[-1])
-        return "[" + ("," + ("" if style in (0, 2) else " ")).join(str(t) for t in row) + "]"
+            return rng % (row[0], row[-1])
+        return "[" + ("," + {0: "", 2: "", 4: "\r\n", 5: "\f"}.get(style, " ")).join(str(t) for t in row) + "]"
     rows = ("," + nl + " " * (10 if style == 0 else 0)).join(
         row_text(row) + (" " if style == 1 else "") for row in table)
-    acc = ("[1..%d]" % k) if (interval and k >= 1) else "[" + ",".join(str(i + 1) for i in range(k)) + "]"
-    init = "[1..1]" if interval and style in (1, 3) else "[1]"
+    acc = (rng % (1, k)) if (interval and k >= 1) else "[" + ",".join(str(i + 1) for i in range(k)) + "]"
+    init = (rng % (1, 1)) if interval and style in (1, 3, 5) else "[1]"
     return ("_RWS.wa" + sp + ":=" + sp + "rec(" + nl +
             "isFSA" + sp + ":=" + sp + "true," + nl +
             "alphabet" + sp + ":=" + sp + "rec(" + nl +
@@ -352,6 +490,10 @@ def read_builtin_independently(name):
     return names, table, initial
 
 
+def _kbmag_class(style, interval):
+    return {4: "/CRLF-line-ends", 5: "/form-feed"}.get(style, "") + ("/interval-with-blanks" if interval == "spaced" else "")
+
+
 def case_kbmag(case):
     from geometry_tools.automata import fsa, gap_parse
     names, table, style, interval = case["names"], case["table"], case["style"], case["interval"]
@@ -360,7 +502,7 @@ def case_kbmag(case):
     v = []
     inner = [d for d in rec.values() if isinstance(d, dict) and d.get("isFSA") == "true"]
     if len(inner) != 1:
-        return {"v": [{"key": "kbmag/record-shape", "msg": "parsed record %r" % (rec,)}]}
+        return {"v": [{"key": "kbmag/record-shape" + _kbmag_class(style, interval), "msg": "parsed record %r" % (rec,)}]}
     d = inner[0]
     if list(d["alphabet"]["names"]) != list(names):
         v.append({"key": "kbmag/names", "msg": "names %r != %r" % (d["alphabet"]["names"], names)})
@@ -375,6 +517,8 @@ def case_kbmag(case):
     v += check_views(f, model)
     if list(f.start_vertices) != [1]:
         v.append({"key": "kbmag/start", "msg": "start vertices %r" % (f.start_vertices,)})
+    for x in v:
+        x["key"] += _kbmag_class(style, interval)
     return {"v": v, "t": 2, "o": repr(model.key()), "nt": len(model.E) > 0}
 
 
@@ -392,6 +536,114 @@ def case_builtin(case):
     return {"v": v, "t": 2, "o": len(model.E), "nt": True}
 
 
+# ------------------------------------------------------------------------------------------
+# start vertices: every automaton owns its list, however it was obtained
+# ------------------------------------------------------------------------------------------
+START_ROUTES = ["noargs", "empty-dict", "label-dict", "target-dict", "label-dict+start", "target-dict+start", "free", "kbmag", "builtin"]
+DERIVED_ROUTES = ["deepcopy", "recurrent-copy", "rename-copy", "multiple", "shortest-paths"]
+START_EDITS = ["append", "setitem", "clear-extend"]
+_START_D = {0: {"a": 1}, 1: {"a": 0}}
+
+
+def _start_build(route, handed):
+    """(automaton, start list the construction route states); `handed` is the caller's own list for the +start routes."""
+    from geometry_tools.automata import fsa, gap_parse
+    if route == "noargs":
+        return fsa.FSA(), []
+    if route == "empty-dict":
+        return fsa.FSA({}), []
+    if route == "label-dict":
+        return fsa.FSA(copy.deepcopy(_START_D)), []
+    if route == "target-dict":
+        return fsa.FSA({0: {1: ["a"]}, 1: {0: ["a"]}}, graph_dict=False), []
+    if route == "label-dict+start":
+        return fsa.FSA(copy.deepcopy(_START_D), start_vertices=handed), list(handed)
+    if route == "target-dict+start":
+        return fsa.FSA({0: {1: ["a"]}, 1: {0: ["a"]}}, start_vertices=handed, graph_dict=False), list(handed)
+    if route == "free":
+        return fsa.free_automaton(["a"]), [""]
+    if route == "kbmag":
+        rec, _ = gap_parse.parse_record(render_record(["a", "b"], [[2, 0], [2, 1]], 0, False))
+        return fsa._from_gap_record(rec), [1]
+    if route == "builtin":
+        return fsa.load_builtin("f2.wa"), [1]
+    raise ValueError(route)
+
+
+def _start_derive(A, route):
+    if route == "deepcopy":
+        return copy.deepcopy(A)
+    if route == "recurrent-copy":
+        return A.recurrent(inplace=False)
+    if route == "rename-copy":
+        return A.rename_generators({"a": "b"}, inplace=False)
+    if route == "multiple":
+        return A.automaton_multiple(1)
+    if route == "shortest-paths":
+        return A.remove_long_paths(root=0)
+    raise ValueError(route)
+
+
+def case_start_lists(case):
+    """Automaton A by route a (the +start routes hand in the caller's own list), automaton B by route b (a second
+    construction, or derived from A) built before or after the edit; the caller edits ONE of the lists in place
+    (A's start_vertices, or his own list): every other list keeps its content."""
+    ra, rb, edit, order, target = case["a"], case["b"], case["edit"], case["order"], case["target"]
+    handed_a, handed_b = [0], [1]
+    A, exp_a = _start_build(ra, handed_a)
+    undo = []
+    v = []
+
+    def build_b():
+        if rb in DERIVED_ROUTES:
+            return _start_derive(A, rb), None
+        return _start_build(rb, handed_b)
+
+    try:
+        B = exp_b = None
+        if order == "b-first":
+            before_a = list(A.start_vertices)
+            B, exp_b = build_b()
+            if exp_b is None:                       # derived: whatever it has now (its content: C10), it keeps
+                exp_b = list(B.start_vertices)
+        if target == "automaton":
+            undo.append(edit_start_list(A, edit))
+            if list(handed_a) != [0]:
+                v.append({"key": "start-vertices/shared-list/callers-list-follows-automaton/%s" % ra,
+                          "msg": "editing A.start_vertices in place (%s) changed the list handed to the constructor: %r" % (edit, handed_a)})
+        else:                                        # the caller goes on using the list he handed in
+            saved = list(handed_a)
+            handed_a.append("r")
+            handed_a[0] = "q"
+            if list(A.start_vertices) != exp_a:
+                v.append({"key": "start-vertices/shared-list/automaton-follows-callers-list/%s" % ra,
+                          "msg": "editing the list handed to the constructor changed A.start_vertices: %r, constructed with %r" % (list(A.start_vertices), saved)})
+        if order == "b-after":
+            B, exp_b = build_b()
+        if exp_b is not None and list(B.start_vertices) != exp_b and not v:
+            cls = rb if rb in DERIVED_ROUTES else "second-construction/%s" % rb
+            v.append({"key": "start-vertices/shared-list/%s" % cls,
+                      "msg": "A built by %r, B by %r (%s); after editing %s in place (%s) B.start_vertices = %r, expected %r"
+                             % (ra, rb, order, "A.start_vertices" if target == "automaton" else "the caller's list", edit, list(B.start_vertices), exp_b)})
+    finally:
+        for sv, saved in undo:
+            sv[:] = saved
+    return {"v": v, "t": 3, "o": "%s/%s/%s" % (ra, rb, order), "nt": True}
+
+
+def start_list_cases():
+    for ra in START_ROUTES:
+        for rb in START_ROUTES + DERIVED_ROUTES:
+            if rb in DERIVED_ROUTES and ra in ("noargs", "empty-dict", "free", "kbmag", "builtin"):
+                continue                            # derived routes use the two-vertex automaton over {a}
+            # a B derived from A is built before the edit (derived afterwards it would inherit the edited roots)
+            for order in (("b-first",) if rb in DERIVED_ROUTES else ("b-first", "b-after")):
+                for edit in START_EDITS:
+                    yield {"a": ra, "b": rb, "edit": edit, "order": order, "target": "automaton"}
+                if ra.endswith("+start"):
+                    yield {"a": ra, "b": rb, "edit": "-", "order": order, "target": "callers-list"}
+
+
 def kbmag_cases(kmax, nnames, styles):
     for k in range(1, kmax + 1):
         for nn in range(1, nnames + 1):
@@ -399,7 +651,7 @@ def kbmag_cases(kmax, nnames, styles):
             for flat in itertools.product(range(0, k + 1), repeat=k * nn):
                 table = [list(flat[i * nn:(i + 1) * nn]) for i in range(k)]
                 for style in styles:
-                    for interval in (False, True):
+                    for interval in (False, True, "spaced"):
                         yield {"names": names, "table": table, "style": style, "interval": interval}
 
 
@@ -409,7 +661,12 @@ def run(ctx):
     ctx.rule = ("histories of FSA construction/edit operations explored breadth-first on real objects vs a "
                 "set model, de-duplicated on (model state, real-view signature incl. list aliasing); "
                 "kbmag tables enumerated completely; a case is non-trivial when the automaton has >=1 edge")
-    ctx.assume("edits keep the automaton deterministic (enabled ops are computed from the model)")
+    ctx.assume("edits keep the automaton deterministic (enabled ops are computed from the model); adding an edge whose label already "
+               "leaves the tail towards another head is in the domain (add_edges accepts it): the documented invariant 'at most one "
+               "outgoing edge with a given label' leaves two coherent outcomes, the new edge replaces the old one or the old one is "
+               "kept, and either is accepted provided that all three views show the same one")
+    ctx.assume("an empty list of labels (target -> labels dictionary, add_edges(elist=True)) adds no edge: the target is a vertex, "
+               "not a neighbour")
     ctx.assume("vertices without incoming edges may be absent from the incoming view (only foreign vertices are an error)")
     U = U_QUICK
     roots = [[["ctor", "empty", None, U]]]
@@ -425,6 +682,9 @@ def run(ctx):
     roots.append([["ctor", "out_hidden", [(0, 1, "a"), (0, 2, "b")], U]])
     roots.append([["ctor", "out_hidden", [(2, 0, "a"), (2, 1, "b")], U]])
     roots.append([["ctor", "out_hidden", [(0, 1, "a"), (0, 1, "b")], U]])
+    # target -> labels dictionaries that list some targets with an EMPTY label list (no labels, no edges)
+    for g in (ROOT_GRAPHS[1], ROOT_GRAPHS[4], [(1, 0, "a")]):
+        roots.append([["ctor", "out_empty_lists", g, U]])
     roots.append([["ctor", "deepcopy", ROOT_GRAPHS[2], U]])
     roots.append([["ctor", "free", ["a"], {"V": ["", "a", "A"], "L": ["a", "A"]}]])
     for r in ("free_iter", "free_tuple", "free_keys"):
@@ -432,14 +692,15 @@ def run(ctx):
     roots.append([["ctor", "kbmag", [["a", "b"], [[2, 0], [2, 1]]], {"V": [1, 2, 3], "L": ["a", "b"]}]])
     roots.append([["ctor", "builtin", "f2.wa", {"V": [1, 2, 3], "L": ["a", "b"]}]])
     dom = {"vertices": U["V"], "labels": U["L"], "roots": len(roots),
-           "ops": "add_vertices, add_edges(single), add_edges(elist), delete_vertex, delete_vertices, "
+           "ops": "add_vertices, add_edges(single), add_edges(elist, also an empty label list), add_edges re-using a label of the tail "
+                  "for another head (single / elist), delete_vertex, delete_vertices, "
                   "recurrent(inplace/copy), rename_generators(inplace/copy), deepcopy"}
     ctx.bfs("histories", "checks.c09:case_history", roots, depth=3 if q else 5, domains=dom, chunk=64)
     # rich alphabet (3 labels, query ops, two-edge calls), and a 4-vertex universe
     roots_r = [[["ctor", "empty", None, U_THORO]], [["ctor", "graph", ROOT_GRAPHS[2], U_THORO]],
                [["ctor", "out", ROOT_GRAPHS[4], U_THORO]]]
     ctx.bfs("histories-rich", "checks.c09:case_history_rich", roots_r, depth=2 if q else 3,
-            domains={"vertices": U_THORO["V"], "labels": U_THORO["L"], "extra ops": "elist subsets of size 1..3, two-edge calls, has_edge queries"},
+            domains={"vertices": U_THORO["V"], "labels": U_THORO["L"], "extra ops": "elist subsets of size 1..3 (also with ignore_redundant=False when every label is new), add_vertices(iterator), two-edge calls, has_edge queries"},
             chunk=64)
     if not q:
         roots4 = [[["ctor", "empty", None, U_THORO4]], [["ctor", "graph", ROOT_GRAPHS[5], U_THORO4]]]
@@ -447,11 +708,18 @@ def run(ctx):
                 domains={"vertices": U_THORO4["V"], "labels": U_THORO4["L"]}, chunk=64)
         ctx.bfs("histories-no-dedup", "checks.c09:case_history", roots[:6], depth=3, dedup=False,
                 domains={"note": "pure bounded DFS over all histories, no state merging"}, chunk=256)
+    ctx.assume("start_vertices is a public list attribute: the caller may edit it in place (append, item assignment); two automata, "
+               "or an automaton and the list handed to its constructor, never share one list")
+    ctx.product("start-vertex-lists", "checks.c09:case_start_lists", list(start_list_cases()),
+                domains={"A built by": START_ROUTES, "B built by": START_ROUTES + ["derived from A: " + r for r in DERIVED_ROUTES],
+                         "B built": ["before the edit", "after the edit"], "in-place edit of A.start_vertices": START_EDITS,
+                         "also": "the caller edits the list he handed to A's constructor"}, chunk=64)
     # kbmag records
-    cases = list(kbmag_cases(2 if q else 3, 2, (0, 1, 2, 3)))
+    cases = list(kbmag_cases(2 if q else 3, 2, (0, 1, 2, 3, 4, 5)))
     ctx.product("kbmag-records", "checks.c09:case_kbmag", cases,
                 domains={"states": "1..%d" % (2 if q else 3), "names": "1..2", "targets": "0..k (0 = failure state)",
-                         "spacing styles": 4, "accepting syntax": ["explicit", "interval"]}, chunk=256)
+                         "spacing styles": "6: blanks / newlines+indent / one line / tabs / CRLF line ends (also inside a row) / form feed",
+                         "accepting syntax": ["explicit", "interval [1..k]", "interval with blanks [ 1 .. k ] (as GAP prints ranges)"]}, chunk=256)
     from geometry_tools.automata import fsa
     names = sorted(fsa.list_builtins())
     ctx.product("builtin-files", "checks.c09:case_builtin", [{"name": n} for n in names if not n.startswith("__")],
